@@ -403,6 +403,15 @@ class HostNode(Node, discriminator="host-node"):
         """
         super().receive_frame(frame, from_network_interface)
 
+        # a host is not a router: a packet for an address the host does not own (e.g. sent to it as a gateway) is discarded
+        if (
+            frame.ip
+            and not self.ip_is_network_interface(frame.ip.dst_ip_address)
+            and frame.ip.dst_ip_address != from_network_interface.ip_network.broadcast_address
+        ):
+            self.sys_log.info(f"Ignoring frame for {frame.ip.dst_ip_address}")
+            return
+
         # Check if the destination port is open on the Node
         dst_port = None
         if frame.tcp:
